@@ -20,25 +20,53 @@ use std::time::Duration;
 
 #[derive(Clone, Debug, Serialize, Deserialize)]
 pub enum POp {
-    AllocBytes { n: u16, payload: u8 },
+    AllocBytes {
+        n: u16,
+        payload: u8,
+    },
     /// alloc_bytes(largest free segment * num / 8 + d), resolved when the operation starts
-    AllocRel { num: u8, d: i8, payload: u8 },
+    AllocRel {
+        num: u8,
+        d: i8,
+        payload: u8,
+    },
     /// alloc_bytes(size field of the free-list node at list position `ix` (monotone map onto the list) + d), resolved
     /// when the operation starts: with d <= 0 a Pessimistic arena serves it from that node or an earlier one of the same
     /// size, so several threads can be made to work on different nodes of one list at the same time
-    AllocSeg { ix: u8, d: i8, payload: u8 },
-    AllocAligned { ty: u8, n: u16, payload: u8 },
-    AllocTyped { ty: u8, payload: u8 },
-    AllocOwned { n: u16 },
+    AllocSeg {
+        ix: u8,
+        d: i8,
+        payload: u8,
+    },
+    AllocAligned {
+        ty: u8,
+        n: u16,
+        payload: u8,
+    },
+    AllocTyped {
+        ty: u8,
+        payload: u8,
+    },
+    AllocOwned {
+        n: u16,
+    },
     /// alloc_bytes of a size that cannot fit: sel 0 = u32::MAX - |d|, 1 = u32::MAX - allocated() + d (the sum passes 2^32
     /// for d > 0), 2 = capacity() + d, 3 = remaining() + 1 + |d|; resolved when the operation starts
-    AllocHuge { sel: u8, d: i8 },
-    Drop { h: u16 },
+    AllocHuge {
+        sel: u8,
+        d: i8,
+    },
+    Drop {
+        h: u16,
+    },
     Discard,
     CloneArena,
     DropClone,
     /// give handle `h` (an owned buffer) to thread `to`
-    Send { h: u16, to: u8 },
+    Send {
+        h: u16,
+        to: u8,
+    },
     /// take whatever the mailbox holds for this thread
     Recv,
 }
@@ -104,7 +132,14 @@ impl Race {
         for (i, v) in vc.iter_mut().enumerate() {
             v[i] = 1;
         }
-        Race { vc, rel: HashMap::new(), last_write: vec![WriteRec::default(); if enabled { cap } else { 0 }], reads_na: vec![vec![0; if enabled { cap } else { 0 }]; nn], reads_at: vec![vec![0; if enabled { cap } else { 0 }]; nn], enabled }
+        Race {
+            vc,
+            rel: HashMap::new(),
+            last_write: vec![WriteRec::default(); if enabled { cap } else { 0 }],
+            reads_na: vec![vec![0; if enabled { cap } else { 0 }]; nn],
+            reads_at: vec![vec![0; if enabled { cap } else { 0 }]; nn],
+            enabled,
+        }
     }
     fn ix(&self, t: usize) -> usize {
         if t == MAIN {
@@ -118,7 +153,14 @@ impl Race {
         self.vc[i][i] += 1;
     }
     /// returns a description of a race, if the write by `t` to bytes [lo, hi) races with an earlier access
-    fn on_write(&mut self, t: usize, lo: usize, hi: usize, atomic: bool, what: &str) -> Option<String> {
+    fn on_write(
+        &mut self,
+        t: usize,
+        lo: usize,
+        hi: usize,
+        atomic: bool,
+        what: &str,
+    ) -> Option<String> {
         if !self.enabled {
             return None;
         }
@@ -126,7 +168,11 @@ impl Race {
         let hi = hi.min(self.last_write.len());
         for b in lo..hi {
             let w = self.last_write[b];
-            if w.valid && w.tid as usize != ti && w.clock > self.vc[ti][w.tid as usize] && !(atomic && w.atomic) {
+            if w.valid
+                && w.tid as usize != ti
+                && w.clock > self.vc[ti][w.tid as usize]
+                && !(atomic && w.atomic)
+            {
                 return Some(format!("{what} by thread {ti} at byte {b} is unordered with an earlier {} write by thread {}", if w.atomic { "atomic" } else { "plain" }, w.tid));
             }
             for r in 0..self.vc.len() {
@@ -143,7 +189,12 @@ impl Race {
         }
         let clock = self.vc[ti][ti];
         for b in lo..hi {
-            self.last_write[b] = WriteRec { tid: ti as u32, clock, atomic, valid: true };
+            self.last_write[b] = WriteRec {
+                tid: ti as u32,
+                clock,
+                atomic,
+                valid: true,
+            };
             for r in 0..self.vc.len() {
                 self.reads_na[r][b] = 0;
                 self.reads_at[r][b] = 0;
@@ -151,7 +202,14 @@ impl Race {
         }
         None
     }
-    fn on_read(&mut self, t: usize, lo: usize, hi: usize, atomic: bool, what: &str) -> Option<String> {
+    fn on_read(
+        &mut self,
+        t: usize,
+        lo: usize,
+        hi: usize,
+        atomic: bool,
+        what: &str,
+    ) -> Option<String> {
         if !self.enabled {
             return None;
         }
@@ -159,7 +217,11 @@ impl Race {
         let hi = hi.min(self.last_write.len());
         for b in lo..hi {
             let w = self.last_write[b];
-            if w.valid && w.tid as usize != ti && w.clock > self.vc[ti][w.tid as usize] && !(atomic && w.atomic) {
+            if w.valid
+                && w.tid as usize != ti
+                && w.clock > self.vc[ti][w.tid as usize]
+                && !(atomic && w.atomic)
+            {
                 return Some(format!("{what} by thread {ti} at byte {b} is unordered with an earlier {} write by thread {}", if w.atomic { "atomic" } else { "plain" }, w.tid));
             }
         }
@@ -295,7 +357,9 @@ impl St {
         (0..self.n).filter(|i| !self.finished[*i]).collect()
     }
     fn choose(&mut self, t: usize) -> usize {
-        let mut cands: Vec<usize> = (0..self.n).filter(|i| !self.finished[*i] && !self.stalled[*i]).collect();
+        let mut cands: Vec<usize> = (0..self.n)
+            .filter(|i| !self.finished[*i] && !self.stalled[*i])
+            .collect();
         if cands.is_empty() {
             cands = self.unfinished();
         }
@@ -303,7 +367,11 @@ impl St {
             return MAIN;
         }
         if self.park_all {
-            let free: Vec<usize> = cands.iter().copied().filter(|c| self.parked[*c] == 0).collect();
+            let free: Vec<usize> = cands
+                .iter()
+                .copied()
+                .filter(|c| self.parked[*c] == 0)
+                .collect();
             for p in self.parked.iter_mut() {
                 *p = p.saturating_sub(1);
             }
@@ -342,7 +410,10 @@ impl St {
     }
     fn stall_violation(&mut self) {
         let u = self.unfinished();
-        let ops: Vec<String> = u.iter().map(|i| format!("thread {i}: {}", self.last_op[*i])).collect();
+        let ops: Vec<String> = u
+            .iter()
+            .map(|i| format!("thread {i}: {}", self.last_op[*i]))
+            .collect();
         let fl = self.freelist_raw();
         let marked: Vec<(u32, u32, u32)> = fl.iter().copied().filter(|n| n.1 == 0).collect();
         let sig = if self.aba_mark.is_some() {
@@ -352,7 +423,11 @@ impl St {
         } else {
             "stall/no-progress".to_string()
         };
-        let aba = self.aba_mark.clone().map(|a| format!("; earlier: {a}")).unwrap_or_default();
+        let aba = self
+            .aba_mark
+            .clone()
+            .map(|a| format!("; earlier: {a}"))
+            .unwrap_or_default();
         self.fail(viol!("C07", sig, "every unfinished thread keeps re-reading unchanged words (no write by anyone for > {} scheduling points each): {}; reachable list {:?}{aba}", self.lbound, ops.join("; "), fl));
     }
     /// raw bounded walk over the list as it is reachable from the sentinel (only valid for the unified layout)
@@ -362,12 +437,15 @@ impl St {
         }
         // an unfinished thread still owns its arena value: walk through that one
         match self.unfinished().first() {
-            Some(u) => unsafe { &*(self.arena_ptrs[*u] as *const Arena) }.verif_freelist(256).nodes,
+            Some(u) => {
+                unsafe { &*(self.arena_ptrs[*u] as *const Arena) }
+                    .verif_freelist(256)
+                    .nodes
+            }
             None => vec![],
         }
     }
 }
-
 
 pub struct RunB {
     pub classes: BTreeSet<&'static str>,
@@ -445,8 +523,23 @@ fn after_event(sh: &Shared, t: usize, e: &Event) {
     let in_arena = e.addr >= st.base && e.addr < st.base + st.cap;
     let off = e.addr.wrapping_sub(st.base);
     if trace_on() {
-        let loc = if in_arena { format!("@{off}") } else if e.addr == st.refs_addr { "refs".to_string() } else { format!("hdr+{}", e.addr & 0xff) };
-        eprintln!("[{:>5}] t{t} {:?}{} {loc} read={:#x} new={:#x} wrote={} ({})", st.steps, e.kind, if e.weak { "w" } else { "" }, e.old, e.new, e.wrote, st.last_op[t]);
+        let loc = if in_arena {
+            format!("@{off}")
+        } else if e.addr == st.refs_addr {
+            "refs".to_string()
+        } else {
+            format!("hdr+{}", e.addr & 0xff)
+        };
+        eprintln!(
+            "[{:>5}] t{t} {:?}{} {loc} read={:#x} new={:#x} wrote={} ({})",
+            st.steps,
+            e.kind,
+            if e.weak { "w" } else { "" },
+            e.old,
+            e.new,
+            e.wrote,
+            st.last_op[t]
+        );
     }
     let width = e.width as usize;
     let changed = e.wrote && e.old != e.new;
@@ -497,7 +590,11 @@ fn after_event(sh: &Shared, t: usize, e: &Event) {
     // the marking thread finishes its removal (predecessor now skips the segment) or puts the word back
     if let Some(m) = st.my_mark[t] {
         let restored = e.kind == Kind::Store && in_arena && off == m && (e.new >> 32) != 0;
-        let unlinked = e.kind == Kind::Cas && e.wrote && width == 8 && (e.old as u32) as usize == m && (e.new as u32) as usize != m;
+        let unlinked = e.kind == Kind::Cas
+            && e.wrote
+            && width == 8
+            && (e.old as u32) as usize == m
+            && (e.new as u32) as usize != m;
         if restored || unlinked {
             st.my_mark[t] = None;
         }
@@ -522,7 +619,11 @@ fn after_event(sh: &Shared, t: usize, e: &Event) {
     // C02: the arena never writes into a live range
     if in_arena && e.wrote {
         let (lo, hi) = (off, off + width);
-        if let Some(l) = st.live.iter().find(|l| l.cap > 0 && lo < l.off + l.cap && l.off < hi) {
+        if let Some(l) = st
+            .live
+            .iter()
+            .find(|l| l.cap > 0 && lo < l.off + l.cap && l.off < hi)
+        {
             let (lid, ltid, loff, lcap) = (l.id, l.tid, l.off, l.cap);
             let doing = st.last_op[t].clone();
             st.fail(viol!(
@@ -607,7 +708,10 @@ fn mem_event(sh: &Shared, t: usize, e: &Event) {
         }
         if st.detect_races && e.addr == st.base {
             let cap = st.cap;
-            if let Some(r) = st.race.on_write(t, 0, cap, false, "release of the backing memory") {
+            if let Some(r) = st
+                .race
+                .on_write(t, 0, cap, false, "release of the backing memory")
+            {
                 st.fail(viol!("C12", "race/unmount", "{r}"));
                 sh.cv.notify_all();
             }
@@ -622,7 +726,11 @@ fn mem_event(sh: &Shared, t: usize, e: &Event) {
     }
     let off = e.addr - st.base;
     let (lo, hi) = (off, off + e.len);
-    if let Some(l) = st.live.iter().find(|l| l.cap > 0 && lo < l.off + l.cap && l.off < hi) {
+    if let Some(l) = st
+        .live
+        .iter()
+        .find(|l| l.cap > 0 && lo < l.off + l.cap && l.off < hi)
+    {
         let (lid, ltid, loff, lcap) = (l.id, l.tid, l.off, l.cap);
         let doing = st.last_op[t].clone();
         st.fail(viol!("C02", "arena-zeroed-live-range", "thread {t} zeroes [{lo}, {hi}) which intersects live range #{lid} [{loff}, {}) owned by thread {ltid} (doing: {})", loff + lcap, doing));
@@ -689,7 +797,11 @@ fn payload_bytes(kind: u8, id: u32, cap: usize, st: &St) -> Vec<u8> {
                 let size: u32 = 64 + (id % 900);
                 let next: u32 = match id % 3 {
                     0 => u32::MAX,
-                    1 => st.live.first().map(|l| (l.off as u32) & !7).unwrap_or(u32::MAX),
+                    1 => st
+                        .live
+                        .first()
+                        .map(|l| (l.off as u32) & !7)
+                        .unwrap_or(u32::MAX),
                     _ => ((st.data_offset as u32 + 7) & !7) + 8 * (id % 16),
                 };
                 let w = ((size as u64) << 32) | next as u64;
@@ -706,7 +818,14 @@ fn payload_bytes(kind: u8, id: u32, cap: usize, st: &St) -> Vec<u8> {
     v
 }
 
-fn run_prog(sh: &Arc<Shared>, t: usize, arena: &'static Arena, prog: &[POp], clones: &mut Vec<Box<Arena>>, hs: &mut Vec<TH>) {
+fn run_prog(
+    sh: &Arc<Shared>,
+    t: usize,
+    arena: &'static Arena,
+    prog: &[POp],
+    clones: &mut Vec<Box<Arena>>,
+    hs: &mut Vec<TH>,
+) {
     let set_op = |s: String| {
         let mut st = lock(sh);
         st.last_op[t] = s;
@@ -716,22 +835,63 @@ fn run_prog(sh: &Arc<Shared>, t: usize, arena: &'static Arena, prog: &[POp], clo
     for (pi, op) in prog.iter().enumerate() {
         set_op(format!("op {pi} {op:?}"));
         match op {
-            POp::AllocBytes { .. } | POp::AllocRel { .. } | POp::AllocSeg { .. } | POp::AllocAligned { .. } | POp::AllocTyped { .. } | POp::AllocOwned { .. } | POp::AllocHuge { .. } => {
+            POp::AllocBytes { .. }
+            | POp::AllocRel { .. }
+            | POp::AllocSeg { .. }
+            | POp::AllocAligned { .. }
+            | POp::AllocTyped { .. }
+            | POp::AllocOwned { .. }
+            | POp::AllocHuge { .. } => {
                 // req = (kind: 0 bytes, 1 aligned, 2 typed; type index; n) - what C03 promises about the result
                 let (r, payload, is_bytes, owned, req) = match op {
-                    POp::AllocBytes { n, payload } => (alloc_bytes(arena, *n as u32, false), *payload, true, false, (0u8, 0usize, *n as u32)),
+                    POp::AllocBytes { n, payload } => (
+                        alloc_bytes(arena, *n as u32, false),
+                        *payload,
+                        true,
+                        false,
+                        (0u8, 0usize, *n as u32),
+                    ),
                     POp::AllocRel { num, d, payload } => {
-                        let head = arena.verif_freelist(64).nodes.iter().map(|n| n.1).max().unwrap_or(64) as i64;
+                        let head = arena
+                            .verif_freelist(64)
+                            .nodes
+                            .iter()
+                            .map(|n| n.1)
+                            .max()
+                            .unwrap_or(64) as i64;
                         let n = (head * (*num as i64 % 9) / 8 + *d as i64).clamp(1, 4096) as u32;
-                        (alloc_bytes(arena, n, false), *payload, true, false, (0, 0, n))
+                        (
+                            alloc_bytes(arena, n, false),
+                            *payload,
+                            true,
+                            false,
+                            (0, 0, n),
+                        )
                     }
                     POp::AllocSeg { ix, d, payload } => {
                         let nodes = arena.verif_freelist(64).nodes;
-                        let n = if nodes.is_empty() { 16 } else { (nodes[(*ix as usize * nodes.len()) >> 8].1 as i64 + *d as i64).clamp(1, 4096) as u32 };
+                        let n = if nodes.is_empty() {
+                            16
+                        } else {
+                            (nodes[(*ix as usize * nodes.len()) >> 8].1 as i64 + *d as i64)
+                                .clamp(1, 4096) as u32
+                        };
                         lock(sh).classes.insert("segment-targeted-request");
-                        (alloc_bytes(arena, n, false), *payload, true, false, (0, 0, n))
+                        (
+                            alloc_bytes(arena, n, false),
+                            *payload,
+                            true,
+                            false,
+                            (0, 0, n),
+                        )
                     }
-                    POp::AllocOwned { n } => (alloc_bytes(arena, *n as u32, true), 0, true, true, (0, 0, *n as u32)),
+                    POp::AllocOwned { n } => (
+                        alloc_bytes(arena, *n as u32, true),
+                        0,
+                        true,
+                        true,
+                        (0, 0, *n as u32),
+                    ),
                     POp::AllocHuge { sel, d } => {
                         let (al, cp) = (arena.allocated() as i64, arena.capacity() as i64);
                         let n = match sel % 4 {
@@ -746,13 +906,25 @@ fn run_prog(sh: &Arc<Shared>, t: usize, arena: &'static Arena, prog: &[POp], clo
                     }
                     POp::AllocAligned { ty, n, payload } => {
                         let tix = *ty as usize % TYPES.len();
-                        (alloc_aligned(arena, tix, *n as u32, false), *payload, false, false, (1, tix, *n as u32))
+                        (
+                            alloc_aligned(arena, tix, *n as u32, false),
+                            *payload,
+                            false,
+                            false,
+                            (1, tix, *n as u32),
+                        )
                     }
                     POp::AllocTyped { ty, payload } => {
                         let tix = *ty as usize % TYPES.len();
                         // drop types keep their value in the handle; plain types only
                         let tix = if TYPES[tix].needs_drop { 24 } else { tix };
-                        (alloc_typed(arena, tix, false), *payload, false, false, (2, tix, 0))
+                        (
+                            alloc_typed(arena, tix, false),
+                            *payload,
+                            false,
+                            false,
+                            (2, tix, 0),
+                        )
                     }
                     _ => unreachable!(),
                 };
@@ -769,22 +941,56 @@ fn run_prog(sh: &Arc<Shared>, t: usize, arena: &'static Arena, prog: &[POp], clo
                     let (kind, tix, n) = req;
                     let ty = &TYPES[tix];
                     let bad = match kind {
-                        0 => (cap != n as usize).then(|| ("bytes-capacity", format!("alloc_bytes({n}) returned capacity {cap}"))),
-                        1 if ty.size == 0 && (ty.align == 1 || n == 0) => (cap != n as usize).then(|| ("bytes-capacity", format!("alloc_aligned_bytes::<{}>({n}) returned capacity {cap}", ty.name))),
+                        0 => (cap != n as usize).then(|| {
+                            (
+                                "bytes-capacity",
+                                format!("alloc_bytes({n}) returned capacity {cap}"),
+                            )
+                        }),
+                        1 if ty.size == 0 && (ty.align == 1 || n == 0) => {
+                            (cap != n as usize).then(|| {
+                                (
+                                    "bytes-capacity",
+                                    format!(
+                                        "alloc_aligned_bytes::<{}>({n}) returned capacity {cap}",
+                                        ty.name
+                                    ),
+                                )
+                            })
+                        }
                         1 => {
                             if off % ty.align != 0 {
                                 Some(("aligned-offset", format!("alloc_aligned_bytes::<{}>({n}) offset {off} not a multiple of {}", ty.name, ty.align)))
                             } else if cap < ty.size + n as usize {
-                                Some(("aligned-capacity", format!("alloc_aligned_bytes::<{}>({n}) capacity {cap} < {}", ty.name, ty.size + n as usize)))
+                                Some((
+                                    "aligned-capacity",
+                                    format!(
+                                        "alloc_aligned_bytes::<{}>({n}) capacity {cap} < {}",
+                                        ty.name,
+                                        ty.size + n as usize
+                                    ),
+                                ))
                             } else {
                                 None
                             }
                         }
                         _ => {
                             if cap != ty.size {
-                                Some(("typed-capacity", format!("alloc::<{}>() capacity {cap} != size_of {}", ty.name, ty.size)))
+                                Some((
+                                    "typed-capacity",
+                                    format!(
+                                        "alloc::<{}>() capacity {cap} != size_of {}",
+                                        ty.name, ty.size
+                                    ),
+                                ))
                             } else if ty.size > 0 && off % ty.align != 0 {
-                                Some(("typed-offset", format!("alloc::<{}>() offset {off} not a multiple of {}", ty.name, ty.align)))
+                                Some((
+                                    "typed-offset",
+                                    format!(
+                                        "alloc::<{}>() offset {off} not a multiple of {}",
+                                        ty.name, ty.align
+                                    ),
+                                ))
                             } else {
                                 None
                             }
@@ -817,7 +1023,11 @@ fn run_prog(sh: &Arc<Shared>, t: usize, arena: &'static Arena, prog: &[POp], clo
                     std::mem::forget(obj);
                     unwind_abort();
                 }
-                if let Some(l) = st.live.iter().find(|l| l.cap > 0 && off < l.off + l.cap && l.off < off + cap) {
+                if let Some(l) = st
+                    .live
+                    .iter()
+                    .find(|l| l.cap > 0 && off < l.off + l.cap && l.off < off + cap)
+                {
                     let (lid, ltid, loff, lcap) = (l.id, l.tid, l.off, l.cap);
                     st.fail(viol!("C02|C04", "overlap", "thread {t} {op:?}: returned [{off}, {}) overlapping live range #{lid} [{loff}, {}) of thread {ltid}", off + cap, loff + lcap));
                     sh.cv.notify_all();
@@ -828,7 +1038,12 @@ fn run_prog(sh: &Arc<Shared>, t: usize, arena: &'static Arena, prog: &[POp], clo
                 if is_bytes {
                     let m = &st.mem()[off..off + cap];
                     if m.iter().any(|b| *b != 0) {
-                        st.fail(viol!("C08", "not-zeroed", "thread {t} {op:?}: alloc_bytes range [{off}, {}) not zero at return", off + cap));
+                        st.fail(viol!(
+                            "C08",
+                            "not-zeroed",
+                            "thread {t} {op:?}: alloc_bytes range [{off}, {}) not zero at return",
+                            off + cap
+                        ));
                         sh.cv.notify_all();
                         drop(st);
                         std::mem::forget(obj);
@@ -839,8 +1054,16 @@ fn run_prog(sh: &Arc<Shared>, t: usize, arena: &'static Arena, prog: &[POp], clo
                 st.next_id += 1;
                 // the owner's first access: a plain write of its payload
                 let bytes = payload_bytes(payload, id, cap, &st);
-                if let Some(r) = st.race.on_write(t, off, off + cap, false, "new owner's first write") {
-                    st.fail(viol!("C12", "race/handover", "{r} (range [{off}, {}) handed to thread {t} by {op:?})", off + cap));
+                if let Some(r) =
+                    st.race
+                        .on_write(t, off, off + cap, false, "new owner's first write")
+                {
+                    st.fail(viol!(
+                        "C12",
+                        "race/handover",
+                        "{r} (range [{off}, {}) handed to thread {t} by {op:?})",
+                        off + cap
+                    ));
                     sh.cv.notify_all();
                     drop(st);
                     std::mem::forget(obj);
@@ -857,8 +1080,16 @@ fn run_prog(sh: &Arc<Shared>, t: usize, arena: &'static Arena, prog: &[POp], clo
                 for b in off..off + cap {
                     st.last_owner[b] = t as u8 + 1;
                 }
-                unsafe { std::ptr::copy_nonoverlapping(bytes.as_ptr(), (st.base + off) as *mut u8, cap) };
-                st.live.push(LiveB { id, tid: t, off, cap, expect: bytes });
+                unsafe {
+                    std::ptr::copy_nonoverlapping(bytes.as_ptr(), (st.base + off) as *mut u8, cap)
+                };
+                st.live.push(LiveB {
+                    id,
+                    tid: t,
+                    off,
+                    cap,
+                    expect: bytes,
+                });
                 if owned {
                     st.holders += 1;
                 }
@@ -866,7 +1097,11 @@ fn run_prog(sh: &Arc<Shared>, t: usize, arena: &'static Arena, prog: &[POp], clo
                     st.classes.insert("forged-payload");
                 }
                 drop(st);
-                hs.push(TH { obj: Some(obj), info: LiveInfo { id, off, cap }, owned });
+                hs.push(TH {
+                    obj: Some(obj),
+                    info: LiveInfo { id, off, cap },
+                    owned,
+                });
             }
             POp::Drop { h } => {
                 if hs.is_empty() {
@@ -902,7 +1137,12 @@ fn run_prog(sh: &Arc<Shared>, t: usize, arena: &'static Arena, prog: &[POp], clo
                 }
             }
             POp::Send { h, to } => {
-                let cands: Vec<usize> = hs.iter().enumerate().filter(|(_, x)| x.owned).map(|(i, _)| i).collect();
+                let cands: Vec<usize> = hs
+                    .iter()
+                    .enumerate()
+                    .filter(|(_, x)| x.owned)
+                    .map(|(i, _)| i)
+                    .collect();
                 if cands.is_empty() {
                     continue;
                 }
@@ -930,7 +1170,11 @@ fn run_prog(sh: &Arc<Shared>, t: usize, arena: &'static Arena, prog: &[POp], clo
                 for (b, info, vc) in items {
                     let ti = st.race.ix(t);
                     join(&mut st.race.vc[ti], &vc);
-                    hs.push(TH { obj: Some(b.0), info, owned: true });
+                    hs.push(TH {
+                        obj: Some(b.0),
+                        info,
+                        owned: true,
+                    });
                     st.classes.insert("owned-buffer-received");
                 }
             }
@@ -945,7 +1189,11 @@ fn run_prog(sh: &Arc<Shared>, t: usize, arena: &'static Arena, prog: &[POp], clo
         for (b, info, vc) in items {
             let ti = st.race.ix(t);
             join(&mut st.race.vc[ti], &vc);
-            hs.push(TH { obj: Some(b.0), info, owned: true });
+            hs.push(TH {
+                obj: Some(b.0),
+                info,
+                owned: true,
+            });
             st.classes.insert("owned-buffer-received");
         }
     }
@@ -973,7 +1221,9 @@ fn run_prog(sh: &Arc<Shared>, t: usize, arena: &'static Arena, prog: &[POp], clo
 /// An operation has returned: a segment it marked must have been unlinked or restored by now.
 fn check_no_orphan_mark(sh: &Arc<Shared>, t: usize, failed: bool) {
     let mut st = lock(sh);
-    let Some(m) = st.my_mark[t].take() else { return };
+    let Some(m) = st.my_mark[t].take() else {
+        return;
+    };
     if st.freed {
         return;
     }
@@ -995,18 +1245,25 @@ fn check_no_orphan_mark(sh: &Arc<Shared>, t: usize, failed: bool) {
 /// The owner's last access before a release: verify (plain read) and take the range out of the shadow map.
 fn release_check(sh: &Arc<Shared>, t: usize, info: &LiveInfo) {
     let mut st = lock(sh);
-    let Some(ix) = st.live.iter().position(|l| l.id == info.id) else { return };
+    let Some(ix) = st.live.iter().position(|l| l.id == info.id) else {
+        return;
+    };
     let l = st.live.remove(ix);
     let ok = st.mem()[l.off..l.off + l.cap] == l.expect[..];
     if !ok {
-        let p = (0..l.cap).find(|i| st.mem()[l.off + i] != l.expect[*i]).unwrap_or(0);
+        let p = (0..l.cap)
+            .find(|i| st.mem()[l.off + i] != l.expect[*i])
+            .unwrap_or(0);
         let now = st.mem()[l.off + p];
         st.fail(viol!("C02", "bytes-changed", "live range #{} [{}, {}) of thread {t}: byte +{p} changed {:#x} -> {:#x} while it was live", l.id, l.off, l.off + l.cap, l.expect[p], now));
         sh.cv.notify_all();
         drop(st);
         unwind_abort();
     }
-    if let Some(r) = st.race.on_read(t, l.off, l.off + l.cap, false, "owner's last read") {
+    if let Some(r) = st
+        .race
+        .on_read(t, l.off, l.off + l.cap, false, "owner's last read")
+    {
         st.fail(viol!("C12", "race/owner-read", "{r}"));
         sh.cv.notify_all();
         drop(st);
@@ -1025,7 +1282,9 @@ fn final_verify_if_last(sh: &Arc<Shared>) {
     let mut bad = None;
     for l in &st.live {
         if mem[l.off..l.off + l.cap] != l.expect[..] {
-            let p = (0..l.cap).find(|i| mem[l.off + i] != l.expect[*i]).unwrap_or(0);
+            let p = (0..l.cap)
+                .find(|i| mem[l.off + i] != l.expect[*i])
+                .unwrap_or(0);
             bad = Some(viol!("C02", "bytes-changed", "range #{} [{}, {}) (kept by thread {}) does not hold its bytes at the end of the run: byte +{p} {:#x} -> {:#x}", l.id, l.off, l.off + l.cap, if l.tid == MAIN { -1 } else { l.tid as i64 }, l.expect[p], mem[l.off + p]));
             break;
         }
@@ -1036,19 +1295,38 @@ fn final_verify_if_last(sh: &Arc<Shared>) {
     // exist - C07), and no free segment may intersect a range that is still handed out or another free segment
     // (the next allocation served from it would overlap - C02; well-formedness at a quiescent point - C10)
     if bad.is_none() {
-        let me = st.arena_ptrs.iter().enumerate().find(|(i, _)| !st.finished[*i]).map(|(_, p)| *p);
+        let me = st
+            .arena_ptrs
+            .iter()
+            .enumerate()
+            .find(|(i, _)| !st.finished[*i])
+            .map(|(_, p)| *p);
         if let Some(p) = me {
             let snap = unsafe { &*(p as *const Arena) }.verif_freelist(256);
             let nodes = snap.nodes;
             let known = st.aba_mark.clone();
             if let Some(n) = nodes.iter().find(|n| n.1 == 0) {
-                let sig = if known.is_some() { "stall/aba-cas-on-unlinked-node" } else { "quiescent/marked-segment-left" };
-                let aba = known.clone().map(|a| format!("; earlier: {a}")).unwrap_or_default();
+                let sig = if known.is_some() {
+                    "stall/aba-cas-on-unlinked-node"
+                } else {
+                    "quiescent/marked-segment-left"
+                };
+                let aba = known
+                    .clone()
+                    .map(|a| format!("; earlier: {a}"))
+                    .unwrap_or_default();
                 bad = Some(viol!("C07", sig, "all operations have returned but the segment at offset {} is still linked and marked (size 0): the next alloc / dealloc / discard_freelist that meets it never returns; reachable list {:?}{aba}", n.0, nodes));
             } else if known.is_none() {
-                let ext: Vec<(usize, usize)> = nodes.iter().map(|n| (n.0 as usize, n.0 as usize + 8 + n.1 as usize)).collect();
+                let ext: Vec<(usize, usize)> = nodes
+                    .iter()
+                    .map(|n| (n.0 as usize, n.0 as usize + 8 + n.1 as usize))
+                    .collect();
                 'outer: for (k, e) in ext.iter().enumerate() {
-                    if let Some(l) = st.live.iter().find(|l| l.cap > 0 && e.0 < l.off + l.cap && l.off < e.1) {
+                    if let Some(l) = st
+                        .live
+                        .iter()
+                        .find(|l| l.cap > 0 && e.0 < l.off + l.cap && l.off < e.1)
+                    {
                         bad = Some(viol!("C02|C10", "free-segment-overlaps-live", "at the end of the run the free segment [{}, {}) intersects range #{} [{}, {}) that is still handed out; reachable list {:?}", e.0, e.1, l.id, l.off, l.off + l.cap, nodes));
                         break;
                     }
@@ -1089,7 +1367,17 @@ pub fn run_case_b(case: &CaseB, o: &OptsB) -> RunB {
 }
 
 fn run_case_b_inner(case: &CaseB, o: &OptsB) -> RunB {
-    let mut out = RunB { classes: BTreeSet::new(), viol: None, steps: 0, switches: 0, cas_failures: 0, freelist_threads: 0, saw_marked: false, owner_changes: 0, inconclusive: false };
+    let mut out = RunB {
+        classes: BTreeSet::new(),
+        viol: None,
+        steps: 0,
+        switches: 0,
+        cas_failures: 0,
+        freelist_threads: 0,
+        saw_marked: false,
+        owner_changes: 0,
+        inconclusive: false,
+    };
     let n = case.progs.len().clamp(1, 5);
     // 1. arena + pre-history on the main thread (Engine A, unscheduled)
     let mut cfg = case.cfg.clone();
@@ -1136,12 +1424,21 @@ fn run_case_b_inner(case: &CaseB, o: &OptsB) -> RunB {
         verif::set_hook(None);
         cell.get()
     };
-    let lbound = 8 * (nodes as u32 + 2 + case.progs.iter().map(|p| p.len() as u32).sum::<u32>()) * cfg.retries.max(1) as u32 + 64;
+    let lbound = 8
+        * (nodes as u32 + 2 + case.progs.iter().map(|p| p.len() as u32).sum::<u32>())
+        * cfg.retries.max(1) as u32
+        + 64;
     let mut live: Vec<LiveB> = Vec::new();
     let mut next_id = 1u32;
     for h in &w.hs {
         if h.cap > 0 {
-            live.push(LiveB { id: next_id, tid: MAIN, off: h.off, cap: h.cap, expect: h.expect.clone() });
+            live.push(LiveB {
+                id: next_id,
+                tid: MAIN,
+                off: h.off,
+                cap: h.cap,
+                expect: h.expect.clone(),
+            });
             next_id += 1;
         }
     }
@@ -1156,7 +1453,10 @@ fn run_case_b_inner(case: &CaseB, o: &OptsB) -> RunB {
         values.push(Box::new((*a0).clone()));
     }
     values.insert(0, a0);
-    let arena_ptrs: Vec<usize> = values.iter().map(|b| &**b as *const Arena as usize).collect();
+    let arena_ptrs: Vec<usize> = values
+        .iter()
+        .map(|b| &**b as *const Arena as usize)
+        .collect();
     let st = St {
         n,
         current: MAIN,
@@ -1205,7 +1505,10 @@ fn run_case_b_inner(case: &CaseB, o: &OptsB) -> RunB {
         my_mark: vec![None; n],
         owner: o.owner,
     };
-    let sh = Arc::new(Shared { m: Mutex::new(st), cv: Condvar::new() });
+    let sh = Arc::new(Shared {
+        m: Mutex::new(st),
+        cv: Condvar::new(),
+    });
     // main's existing writes (pre-history payloads) happen-before the threads: spawn edge
     {
         let mut st = lock(&sh);
@@ -1258,10 +1561,18 @@ fn run_case_b_inner(case: &CaseB, o: &OptsB) -> RunB {
             verif::set_hook(None);
             if let Err(p) = r {
                 if !p.is::<Abort>() {
-                    let m = p.downcast_ref::<&str>().map(|s| s.to_string()).or_else(|| p.downcast_ref::<String>().cloned()).unwrap_or_default();
+                    let m = p
+                        .downcast_ref::<&str>()
+                        .map(|s| s.to_string())
+                        .or_else(|| p.downcast_ref::<String>().cloned())
+                        .unwrap_or_default();
                     let mut st = lock(&sh2);
                     let op = st.last_op[t].clone();
-                    st.fail(viol!("C04", "panic/thread", "thread {t} panicked during {op}: {m}"));
+                    st.fail(viol!(
+                        "C04",
+                        "panic/thread",
+                        "thread {t} panicked during {op}: {m}"
+                    ));
                 }
                 // never run arena code again for this case
                 std::mem::forget(hs);
@@ -1306,18 +1617,34 @@ fn run_case_b_inner(case: &CaseB, o: &OptsB) -> RunB {
     }
     // 4. after the join: buffers still sitting in a mailbox are dropped by the main thread; if they hold
     // the last arena values the backing memory is released here
-    let aborted = { let st = lock(&sh); st.abort || st.viol.is_some() };
+    let aborted = {
+        let st = lock(&sh);
+        st.abort || st.viol.is_some()
+    };
     if !aborted {
-        let leftovers: Vec<(SendBox, LiveInfo, Vec<u32>)> = lock(&sh).mailbox.iter_mut().flat_map(|m| m.drain(..)).collect();
+        let leftovers: Vec<(SendBox, LiveInfo, Vec<u32>)> = lock(&sh)
+            .mailbox
+            .iter_mut()
+            .flat_map(|m| m.drain(..))
+            .collect();
         if !leftovers.is_empty() {
             {
                 // main is the last holder's dropper: verify while the memory exists
                 let mut st = lock(&sh);
                 if !st.freed {
                     let mem = st.mem().to_vec();
-                    let bad = st.live.iter().find(|l| mem[l.off..l.off + l.cap] != l.expect[..]).map(|l| (l.id, l.off, l.cap));
+                    let bad = st
+                        .live
+                        .iter()
+                        .find(|l| mem[l.off..l.off + l.cap] != l.expect[..])
+                        .map(|l| (l.id, l.off, l.cap));
                     if let Some((id, off, cap)) = bad {
-                        st.fail(viol!("C02", "bytes-changed", "range #{id} [{off}, {}) does not hold its bytes at the end of the run", off + cap));
+                        st.fail(viol!(
+                            "C02",
+                            "bytes-changed",
+                            "range #{id} [{off}, {}) does not hold its bytes at the end of the run",
+                            off + cap
+                        ));
                     }
                 }
             }
@@ -1346,7 +1673,11 @@ fn run_case_b_inner(case: &CaseB, o: &OptsB) -> RunB {
         }
     } else {
         // leak whatever is left in mailboxes
-        let leftovers: Vec<(SendBox, LiveInfo, Vec<u32>)> = lock(&sh).mailbox.iter_mut().flat_map(|m| m.drain(..)).collect();
+        let leftovers: Vec<(SendBox, LiveInfo, Vec<u32>)> = lock(&sh)
+            .mailbox
+            .iter_mut()
+            .flat_map(|m| m.drain(..))
+            .collect();
         std::mem::forget(leftovers);
     }
     let mut st = lock(&sh);
